@@ -27,6 +27,8 @@ def loader():
     global LOADER
     if LOADER is None:
         LOADER = Loader()
+        from . import libmodels
+        libmodels.install(LOADER)
     return LOADER
 
 
